@@ -25,6 +25,7 @@ import (
 	"strconv"
 	"strings"
 	"sync"
+	"syscall"
 	"time"
 
 	"github.com/tetratelabs/wazero/verif/fw"
@@ -40,7 +41,7 @@ const violationLimit = 24
 
 // buildCases: the full product, minus the combinations that do not exist (a module that is still
 // being instantiated cannot be closed before the call), plus the prewarmed-cache slice.
-func buildCases(shapes []shape) (cases []caseSpec, notApplicable int) {
+func buildCases(shapes []shape) (cases []caseSpec, notApplicable, prewarm int) {
 	for _, sh := range shapes {
 		for _, e := range engines {
 			for _, c := range causes {
@@ -54,7 +55,10 @@ func buildCases(shapes []shape) (cases []caseSpec, notApplicable int) {
 			}
 			// ensureTermination is part of the compiled-module identity: the same binary compiled first
 			// by a runtime without close-on-context-done in a shared cache must not be reused.
-			cases = append(cases, caseSpec{Shape: sh.ID, Engine: e, Cause: "cancel", Moment: 1, Prewarm: true})
+			if sh.Family != "grammar" {
+				cases = append(cases, caseSpec{Shape: sh.ID, Engine: e, Cause: "cancel", Moment: 1, Prewarm: true})
+				prewarm++
+			}
 		}
 	}
 	return
@@ -65,16 +69,34 @@ type plan struct {
 	byID    map[string]*shape
 	cases   []caseSpec
 	na      int
+	prewarm int
+	grammar int              // grammar programs run dynamically (thorough)
 	phases  map[string][]int // phase -> indexes into cases
 	workers map[string]int
 }
 
-func makePlan() *plan {
+func thoroughTier() bool {
+	t := os.Getenv("VERIF_TIER")
+	for _, a := range os.Args[1:] {
+		if a == "quick" || a == "thorough" {
+			t = a
+		}
+	}
+	return t == "thorough"
+}
+
+func makePlan(thorough bool) *plan {
 	p := &plan{shapes: buildShapes(), byID: map[string]*shape{}, phases: map[string][]int{}, workers: map[string]int{}}
+	if thorough {
+		// every non-terminating program of the function-graph grammar with k <= 2 functions also runs dynamically
+		g := grammarDynamicShapes(2)
+		p.grammar = len(g)
+		p.shapes = append(p.shapes, g...)
+	}
 	for i := range p.shapes {
 		p.byID[p.shapes[i].ID] = &p.shapes[i]
 	}
-	p.cases, p.na = buildCases(p.shapes)
+	p.cases, p.na, p.prewarm = buildCases(p.shapes)
 	for i, c := range p.cases {
 		sh := p.byID[c.Shape]
 		// Scheduling hints only (no influence on verdicts).
@@ -134,8 +156,9 @@ func main() {
 		replay(os.Args[2])
 		return
 	}
-	p := makePlan()
+	p := makePlan(thoroughTier())
 	if fw.IsChild() {
+		dieWithParent()
 		idxs := p.phases[fw.ChildMode()]
 		lowPriorityOnceArmed = fw.ChildMode() == "tail"
 		fw.ChildLoop(func(i int) string {
@@ -173,6 +196,9 @@ func main() {
 	var sNodes, sEdges, sChecks, sProgs int64
 	for i := range p.shapes {
 		sh := &p.shapes[i]
+		if sh.Family == "grammar" {
+			continue // analysed by structuralGrammar below
+		}
 		res, err := analyseShape(sh)
 		if err != nil {
 			fw.Fatalf("structural %s: %v", sh.ID, err)
@@ -195,10 +221,7 @@ func main() {
 		}
 	}
 	structWall := time.Since(tS).Seconds()
-	var gram *grammarStats
-	if run.Thorough() {
-		gram = structuralGrammar(run, outcomes)
-	}
+	gram := structuralGrammar(run, outcomes)
 
 	// ------------------------------------------------------------ dynamic pass
 	var evals, running, armedCases, earlyDeadline, hangs, oneIter int64
@@ -285,6 +308,10 @@ func main() {
 		}
 	}
 	for _, round := range phaseRounds {
+		if run.Violations() >= violationLimit {
+			run.Capped(fmt.Sprintf("stopped feeding cases after %d violations", violationLimit))
+			break
+		}
 		var wg sync.WaitGroup
 		for _, ph := range round {
 			idxs := p.phases[ph]
@@ -318,6 +345,9 @@ func main() {
 	// structural <-> dynamic agreement on the interpreter (informational cross-check of the graph model)
 	agree, disagree := 0, []string{}
 	for _, sh := range p.shapes {
+		if sh.Family == "grammar" {
+			continue
+		}
 		if structUnchecked[sh.ID] == hangOnInterp[sh.ID] {
 			agree++
 		} else {
@@ -335,21 +365,19 @@ func main() {
 	}
 	bounds := map[string]any{
 		"shapes": len(p.shapes), "shapes_per_family": fam, "engines": engines, "causes": causes, "moments": []string{"before-call", "after-iteration-1", "after-iteration-3"},
-		"product_cases": len(p.cases) - 2*len(p.shapes), "prewarmed_cache_cases": 2 * len(p.shapes), "not_applicable": p.na,
+		"product_cases": len(p.cases) - p.prewarm, "prewarmed_cache_cases": p.prewarm, "not_applicable": p.na, "grammar_programs_run_dynamically": p.grammar,
 		"ticks_per_guest": nTicks, "hang_watchdog_s": hangAfter.Seconds(), "supervisor_fallback_watchdog_s": caseTimeout.Seconds(), "phase_wall_s": phaseWall,
 		"phase_cases": map[string]int{"tail": len(p.phases["tail"]), "deep": len(p.phases["deep"]), "main": len(p.phases["main"])},
 	}
 	extra := map[string]any{
 		"structural_programs": sProgs, "structural_nodes": sNodes, "structural_edges": sEdges, "structural_check_nodes": sChecks,
-		"structural_wall_s": float64(int(structWall*100)) / 100,
+		"structural_wall_s":               float64(int(structWall*100)) / 100,
 		"structural_vs_interpreter_agree": agree, "structural_vs_interpreter_disagree": len(disagree),
 		"dynamic_cases": evals, "hangs": hangs, "exits_within_one_iteration_of_the_flag": oneIter,
 		"cause_fired_at_the_chosen_tick_and_close_observed": armedCases, "deadline_passed_before_the_chosen_tick": earlyDeadline,
 	}
-	if gram != nil {
-		extra["structural_grammar"] = gram
-		sProgs += gram.Programs
-	}
+	extra["structural_grammar"] = gram
+	sProgs += gram.Programs
 	run.Finish(fw.Coverage{
 		Evaluations: evals + sProgs, DistinctNontriv: running,
 		Rule:    "one evaluation = one (shape, engine, cause, moment) case executed on the real runtime in a child process, or one program analysed structurally; non-trivial = executed dynamic cases in which the cause arrives while the guest is inside its cycle (moment after iteration 1 or 3; counted as results come back from the children; how many of them fired exactly at the chosen tick with the close observed is reported separately); all cases are distinct by construction",
@@ -361,6 +389,16 @@ func main() {
 		"structural pass trusts the accessor copy of the interpreter's operation list and over-approximates call_indirect targets by the active element segments; the compiler has no structural pass (dynamic only)",
 		"guests are by-construction valid modules from the grammar in shapes.go; the space outside it (cycles through memory-dependent conditions, threads, host re-entrancy rings) is not covered",
 	})
+}
+
+// dieWithParent: children may spin forever in guest code; if the supervisor dies (harness error, kill)
+// the kernel kills them too (PR_SET_PDEATHSIG), so no orphan keeps burning a CPU.
+func dieWithParent() {
+	const prSetPdeathsig = 1
+	syscall.RawSyscall(syscall.SYS_PRCTL, prSetPdeathsig, uintptr(syscall.SIGKILL), 0)
+	if os.Getppid() == 1 { // the supervisor was already gone before the request took effect
+		os.Exit(0)
+	}
 }
 
 func analyseShape(sh *shape) (sResult, error) {
@@ -407,7 +445,7 @@ func replay(file string) {
 	if err := json.Unmarshal(b, &v); err != nil {
 		fw.Fatalf("%s: %v", file, err)
 	}
-	p := makePlan()
+	p := makePlan(true)
 	switch v.Replay.Mode {
 	case "structural":
 		sh := p.byID[v.Replay.Shape]
@@ -447,6 +485,7 @@ func replay(file string) {
 			fw.Fatalf("unknown shape %q", c.Shape)
 		}
 		fmt.Printf("replaying %s\n  guest: %s\n", c, sh.Desc)
+		replaying = true
 		done := make(chan string, 1)
 		go func() { done <- runCase(0, c, sh) }()
 		select {
